@@ -255,10 +255,55 @@ def store_half(c):
         c.sample([op_line(edges[ei]["op"]) for ei in seqs[0][:12]])
 
 
+def raw_through_rpc(c):
+    """ApiRaw.tla: AddPath carrying one raw attribute of every type code / value shape / flag octet / request context returns
+    (accepted or InvalidArgument) and leaves a table that can be listed."""
+    r = vf.tlc(SPEC, "ApiRawMC", os.path.join(SPEC, "raw.cfg"), workers=2, timeout=300)
+    c.add_tlc("raw-table", r)
+    if r.violated:
+        c.violation("design", {"invariant": r.violated, "tlc": r.error_text[:3000]}, {"spec": "ApiRaw"})
+        return
+    cases = [json.loads(json.loads(ln)) for ln in r.stdout.splitlines() if ln.startswith('"{')]
+    if not cases:
+        raise vf.ToolError("ApiRaw: no cases")
+    inp = os.path.join(vf.WORK, "C17.apiraw.in")
+    outp = os.path.join(vf.WORK, "C17.apiraw.out")
+    with open(inp, "w") as f:
+        for k in cases:
+            f.write(f"raw {k['code']} {k['shape']} {k['fl']} {k['ctx']}\n")
+    if os.path.exists(outp):
+        os.remove(outp)
+    rc, out = vf.daemon_test("event::verif_harness::api_raw_replay", env={"VERIF_IN": inp, "VERIF_OUT": outp}, timeout=1500)
+    if rc != 0 or not os.path.exists(outp):
+        raise vf.ToolError(f"api_raw_replay failed rc={rc}:\n{out[-3000:]}")
+    got = {j["i"]: j for j in vf.read_jsonl(outp)}
+    seen = set()
+    accepted = 0
+    for i, k in enumerate(cases):
+        g = got.get(i)
+        if g is None:
+            raise vf.ToolError(f"no api_raw result {i}")
+        accepted += g["res"] == "ok"
+        bad = None
+        if g["res"] == "panic":
+            bad = ("c17.rpc_panic", "AddPath panics instead of returning InvalidArgument")
+        elif g["list"] == "panic":
+            bad = ("c17.rpc_list_panic", "the request was answered but listing the table afterwards panics")
+        elif g["list"] == "err":
+            bad = ("c17.rpc_delete", "the path AddPath accepted cannot be deleted by the uuid it returned")
+        if bad and (bad[0], k["code"], k["shape"]) not in seen:
+            seen.add((bad[0], k["code"], k["shape"]))
+            c.violation(bad[0], {"case": k, "why": bad[1]}, {"spec": "ApiRaw", "case": k})
+    c.cov["parts"]["raw_through_rpc"] = {"cases": len(cases), "accepted": accepted}
+    c.cov["evaluations"] += len(cases)
+    c.cov["distinct_nontrivial"] += len(cases)
+
+
 def main(c):
     value_half(c)
     roundtrip(c)
     store_half(c)
+    raw_through_rpc(c)
     c.cov["exhaustive"] = False
     c.cov["rule"] = ("every case of ApiValue.tla (attribute kind x field classes, NLRI kind x family x field classes) converted "
                      "by the real code and validated by ApiValueTrace.tla; round trip of every sample / wire-decoded attribute, "
